@@ -884,6 +884,9 @@ func (m *Machine) Explore(fn *ssa.Function, args []value) (res RunResult) {
 	m.Reached = map[string]int{}
 	m.Incomplete = nil
 	m.sharedHits = nil
+	m.sharedSeen = map[string]bool{}
+	m.sharedOn = m.shared != nil && m.MonitorShared
+	defer func() { m.sharedOn = false }()
 	m.noMerge = map[*ssa.If]bool{}
 	m.ifHist = map[*ssa.If]int{}
 	for {
@@ -921,6 +924,8 @@ func (m *Machine) runPath(fn *ssa.Function, args []value) {
 	m.havocN = 0
 	m.depth = 0
 	m.mergeLvl = 0
+	m.lockDepth = 0
+	m.onceDone = map[*value]bool{}
 	for _, pm := range m.models {
 		pm.okLen = 0
 	}
